@@ -20,6 +20,10 @@ pub struct Dir {
     pub eof_sent: bool,
     pub eof_delivered: bool,
     pub reader: Option<Waker>,
+    /// back-pressure: the sender can have at most this many bytes unread by the peer (in flight
+    /// or delivered); 0 = unbounded. A write beyond it is short or pending.
+    pub capacity: usize,
+    pub writer: Option<Waker>,
     /// how many separate writes the sender made (flights are counted at quiescence)
     pub writes: usize,
     pub total_written: usize,
@@ -45,7 +49,30 @@ pub fn pipe() -> (End, End, Control) {
     (End { shared: shared.clone(), tx: 0 }, End { shared: shared.clone(), tx: 1 }, Control(shared))
 }
 
+impl Dir {
+    fn space(&self) -> usize {
+        if self.capacity == 0 {
+            usize::MAX
+        } else {
+            self.capacity.saturating_sub(self.in_flight.len() + self.delivered.len())
+        }
+    }
+    fn wake_writer_if_space(&mut self) {
+        if self.space() > 0 {
+            if let Some(w) = self.writer.take() {
+                w.wake();
+            }
+        }
+    }
+}
+
 impl Control {
+    /// Bounds what the sender of direction `d` can have outstanding (0 = unbounded).
+    pub fn set_capacity(&self, d: usize, capacity: usize) {
+        let mut s = self.0.borrow_mut();
+        s.dir[d].capacity = capacity;
+        s.dir[d].wake_writer_if_space();
+    }
     pub fn in_flight(&self, d: usize) -> usize {
         self.0.borrow().dir[d].in_flight.len()
     }
@@ -84,7 +111,9 @@ impl Control {
     }
     /// Drops whatever is in flight in direction `d`.
     pub fn discard_in_flight(&self, d: usize) {
-        self.0.borrow_mut().dir[d].in_flight.clear();
+        let mut s = self.0.borrow_mut();
+        s.dir[d].in_flight.clear();
+        s.dir[d].wake_writer_if_space();
     }
     /// The reader of direction `d` sees end-of-stream after the delivered bytes.
     pub fn close(&self, d: usize) {
@@ -93,6 +122,9 @@ impl Control {
         s.dir[d].eof_delivered = true;
         s.dir[d].in_flight.clear();
         if let Some(w) = s.dir[d].reader.take() {
+            w.wake();
+        }
+        if let Some(w) = s.dir[d].writer.take() {
             w.wake();
         }
     }
@@ -114,21 +146,27 @@ impl AsyncRead for End {
         for _ in 0..n {
             buf.put_slice(&[dir.delivered.pop_front().unwrap()]);
         }
+        dir.wake_writer_if_space();
         Poll::Ready(Ok(()))
     }
 }
 
 impl AsyncWrite for End {
-    fn poll_write(self: Pin<&mut Self>, _: &mut Context<'_>, data: &[u8]) -> Poll<io::Result<usize>> {
+    fn poll_write(self: Pin<&mut Self>, cx: &mut Context<'_>, data: &[u8]) -> Poll<io::Result<usize>> {
         let mut s = self.shared.borrow_mut();
         let dir = &mut s.dir[self.tx];
         if dir.eof_sent {
             return Poll::Ready(Err(io::Error::new(io::ErrorKind::BrokenPipe, "pipe closed")));
         }
-        dir.in_flight.extend(data.iter().copied());
+        let n = data.len().min(dir.space());
+        if n == 0 && !data.is_empty() {
+            dir.writer = Some(cx.waker().clone());
+            return Poll::Pending;
+        }
+        dir.in_flight.extend(data[..n].iter().copied());
         dir.writes += 1;
-        dir.total_written += data.len();
-        Poll::Ready(Ok(data.len()))
+        dir.total_written += n;
+        Poll::Ready(Ok(n))
     }
     fn poll_flush(self: Pin<&mut Self>, _: &mut Context<'_>) -> Poll<io::Result<()>> {
         Poll::Ready(Ok(()))
@@ -152,8 +190,15 @@ impl ActixStream for End {
             Poll::Pending
         }
     }
-    fn poll_write_ready(&self, _: &mut Context<'_>) -> Poll<io::Result<Ready>> {
-        Poll::Ready(Ok(Ready::WRITABLE))
+    fn poll_write_ready(&self, cx: &mut Context<'_>) -> Poll<io::Result<Ready>> {
+        let mut s = self.shared.borrow_mut();
+        let dir = &mut s.dir[self.tx];
+        if dir.space() > 0 || dir.eof_sent {
+            Poll::Ready(Ok(Ready::WRITABLE))
+        } else {
+            dir.writer = Some(cx.waker().clone());
+            Poll::Pending
+        }
     }
 }
 
